@@ -208,9 +208,12 @@ Fixpoint run (p : prog) (cur : option N) (s : state) : bool * state :=
   | SetOcc f k => run k cur (upd_occ f s)
   | Gov f k => run k cur (upd_props f s)
   | Scope i body k =>
-      let '(ok, s1) := run body (Some i) s in
-      if ok then let '(ok2, s2) := post i s1 in if ok2 then run k cur s2 else (false, s2)
-      else (false, s1)
+      (* scopes nest only on the same service (unPauseService -> Manage of the restored proposal) *)
+      if match cur with Some j => negb (j =? i)%N | None => false end then (false, s)
+      else
+        let '(ok, s1) := run body (Some i) s in
+        if ok then let '(ok2, s2) := post i s1 in if ok2 then run k cur s2 else (false, s2)
+        else (false, s1)
   | SFire ev last cause k =>
       match cur with
       | None => (false, s)
@@ -233,7 +236,11 @@ Fixpoint run (p : prog) (cur : option N) (s : state) : bool * state :=
           (* RegisterPre is reached only when the service is absent or unavailable (GovernancePre register) *)
           let old := match sget i (svcs s) with Some o => sv_status o | None => St_Unavailable end in
           if negb (String.eqb old St_Unavailable) then (false, s)
-          else run k cur (add_log (mk_log KSvc i (sv_chain r) old Ev_Register St_Unavailable (sv_status r) CAUSE_OP) (upd_svcs (sset i r) s))
+          else
+            (* PackageServiceInfo(..., GovernanceRegisting): the record is written with the destination of the
+               declared edge register: unavailable -> registering *)
+            let r' := {| sv_chain := sv_chain r; sv_status := St_Registing; sv_black := sv_black r; sv_reg := false |} in
+            run k cur (add_log (mk_log KSvc i (sv_chain r) old Ev_Register St_Unavailable St_Registing CAUSE_OP) (upd_svcs (sset i r') s))
       end
   | SBlack b k =>
       match cur with
